@@ -56,7 +56,7 @@ def nontrivial(arr):
 
 
 def run(sh):
-    N = 12 if sh.tier == 'quick' else 16
+    N = 12 if sh.tier == 'quick' else 18
     total = nt = 0
     # exhaustive: all boolean arrays of length 0..N, all m in 0..N+1; sharded by array index
     for n in range(0, N + 1):
